@@ -65,6 +65,11 @@ def cases(tier, seed):
     # two models, separate or shared routes file, every pair of primary-key kinds (equal kinds give equal primary-key *names*)
     for cruds, same_file, pks in itertools.product(itertools.product(("C", "RD", "CRD", "R"), repeat=2), (False, True), itertools.product(PKS, repeat=2)):
         yield dict(kind="pipeline", app="rest_api", same_file=same_file, models=[dict(name=n, pk=p, ncols=1, crud=c, route="/api/" + slug(n)) for n, p, c in zip(("Config", "User"), pks, cruds)])
+    # two models that belong to two *different* applications, routes in one shared file or in two: one document per application, each must hold
+    # exactly its own application's operations
+    for cruds, same_file in itertools.product(itertools.product(("C", "RD", "CRD", "R", "CD"), repeat=2), (True, False)):
+        yield dict(kind="pipeline", app="rest_api", same_file=same_file, two_apps=True,
+                   models=[dict(name=n, pk=p, ncols=1, crud=c, route="/api/" + slug(n), app=a) for n, p, c, a in zip(("Config", "User"), ("explicit", "by_name"), cruds, ("rest_api", "admin_api"))])
     # three models in one routes file
     for cruds in itertools.product(("C", "RD", "CRD"), repeat=3):
         yield dict(kind="pipeline", app="rest_api", same_file=True, models=[dict(name=n, pk=p, ncols=1, crud=c, route="/api/" + slug(n)) for n, p, c in zip(("Config", "User", "Invoice"), ("explicit", "explicit", "by_name"), cruds)])
@@ -157,6 +162,8 @@ def run(case):
         mm = dict(m, pk_name=pk_name, ir=ir)
         models.append(mm)
     ctx = dict(check="openapi", via=case["kind"], n_models=len(models), same_routes_file=bool(case.get("same_file")))
+    if case.get("two_apps"):
+        ctx["two_apps"] = True
 
     def mk_v(m):
         def v(clause, expected, observed, **extra):
@@ -197,8 +204,8 @@ def run(case):
                     f.write("from sqlalchemy import *\n\n\n" + F.render(node) + "\n")
                 rp = os.path.join(d, "routes_%d.py" % (0 if case.get("same_file") else i))
                 transitions += 2
-                routes, pk = cdd.compound.openapi.gen_routes.gen_routes(case["app"], mp, m["name"], m["crud"], m["route"])
-                cdd.compound.openapi.gen_routes.upsert_routes(case["app"], routes, rp, m["route"], pk)
+                routes, pk = cdd.compound.openapi.gen_routes.gen_routes(m.get("app", case["app"]), mp, m["name"], m["crud"], m["route"])
+                cdd.compound.openapi.gen_routes.upsert_routes(m.get("app", case["app"]), routes, rp, m["route"], pk)
                 m["pk_name"] = pk
                 import cdd.sqlalchemy.parse
 
@@ -206,14 +213,18 @@ def run(case):
                 model_paths.append(mp)
                 if rp not in routes_paths:
                     routes_paths.append(rp)
-            transitions += 1
-            doc = cdd.compound.openapi.gen_openapi.openapi_bulk(case["app"], model_paths, routes_paths)
+            docs = []
+            for app in sorted({m.get("app", case["app"]) for m in models}):
+                transitions += 1
+                docs.append((app, cdd.compound.openapi.gen_openapi.openapi_bulk(app, model_paths, routes_paths)))
+            doc = docs[0][1]
         except Exception as e:
             v("pipeline_raises", "a document", "%s: %s" % (type(e).__name__, str(e)[:150]), exc=type(e).__name__)
             return dict(outcome="raises", transitions=transitions, violations=viol)
         finally:
             shutil.rmtree(d, ignore_errors=True)
-        check_doc(doc, models, v)
+        for app, doc_ in docs:
+            check_doc(doc_, [m for m in models if m.get("app", case["app"]) == app], (lambda clause, expected, observed, _app=app, **extra: v(clause, expected, observed, **dict(extra, doc_of=("first" if _app == docs[0][0] else "second")))) if len(docs) > 1 else v)
     uniq, res = set(), []
     for x in viol:
         k = repr(sorted(x["sig"].items()))
@@ -227,7 +238,8 @@ def run(case):
 def describe(tier):
     return dict(
         rule="models: 6 names (single/multi-word, with _tbl, acronym) x primary key {explicit [PK], inferred by name, inferred id} x 1-3 further columns x all 7 "
-        "non-empty subsets of {C,R,D} x 2 route prefixes (x 2 app names in the pipeline); documents with 1, 2 (all 49 CRUD pairs) and 3 models; through "
+        "non-empty subsets of {C,R,D} x 2 route prefixes (x 2 app names in the pipeline); documents with 1, 2 (all 49 CRUD pairs) and 3 models; two models of two different "
+        "applications in one shared (or two) routes file(s), one document per application; through "
         "openapi.emit.openapi directly and through sqlalchemy.emit -> gen_routes -> upsert_routes -> openapi_bulk; a case = one document",
         bounds=dict(names=NAMES, cruds=CRUDS, routes=ROUTES, apps=APPS, pks=PKS),
         exhaustive=True,
